@@ -332,8 +332,6 @@ def wl_quotient(ctx, rng, case):
                 pass
         elif r < 0.88:
             h = rng.choice(sorted(S)) if S and rng.random() < 0.8 else rng.choice(U)
-            if h in S and len(S) == f.size and cluster_count_full(S, f.quotient) == 1:
-                return  # region of the known finding K1 (belongs to C04): never executed
             case.op("remove", h)
             f.remove_alt(h)
             S.discard(h)
@@ -399,7 +397,7 @@ PROP = Prop(
     ],
     assumptions=["statistics formulas evaluated in 60-digit decimal arithmetic; either neighbour accepted when the exact value is within 1e-9 of an integer; "
                  "a completely set array (documented sentinel -1) is outside the formula and skipped",
-                 "quotient-filter histories stop before entering the region of the known finding K1 (listed under C04)"],
+                 ],
     required=["counter_checks", "statistics_checks", "set_operation_count_checks", "ondisk_reopens", "joins", "cuckoo.decisions_taken", "cuckoo.capacity_changes",
               "cuckoo.reloads", "cuckoo.failed_expansions_or_inserts", "quotient.histories_with_removals", "quotient.merges", "aliasing_checks"],
 )
